@@ -153,10 +153,17 @@ class NameSpaces:
 def reservation_rule(pp: Function, rep, rule: str) -> None:
     """process_parameters: the names a colliding parameter must avoid are (a) in the namespace of the tested name (sanitised) and
     (b) include, for non-path parameters, the sanitised names of the path parameters (which the URL template uses unsuffixed)."""
+    def _whiles(f):
+        return [n for n in own_nodes(f.node) if isinstance(n, ast.While) and isinstance(n.test, ast.Compare) and len(n.test.ops) == 1
+                and isinstance(n.test.ops[0], ast.In) and isinstance(n.test.comparators[0], ast.Name)]
+
+    if not _whiles(pp):
+        from sa.flatten import flatten as _flp
+
+        pp = _flp(pp)  # the rename loop may have been extracted into a helper of the processor: written out
     L = Locals(pp.node)
     ns = NameSpaces(pp)
-    whiles = [n for n in own_nodes(pp.node) if isinstance(n, ast.While) and isinstance(n.test, ast.Compare) and len(n.test.ops) == 1
-              and isinstance(n.test.ops[0], ast.In) and isinstance(n.test.comparators[0], ast.Name)]
+    whiles = _whiles(pp)
     sub = f"{pp.module.relpath}:process_parameters path names reserved"
     if not whiles:
         rep.violation(rule, sub, f"{pp.fq}|path-name-not-reserved", "no rename-until-unused loop: argument-name collisions are not resolved", pp.loc())
